@@ -42,6 +42,11 @@ ProofCopiesAgree ==
   /\ Proofs!TransposeP(tbl) = Transpose(tbl)
   /\ Proofs!ShapedP(tbl) = Shaped(tbl)
   /\ \A j \in 1..Len(tbl.samp) : Proofs!ColP(tbl, j) = Col(tbl, j)
+  /\ \A o \in PermsOf(tbl.obs) : Proofs!SortObsP(tbl, o) = SortOrder(tbl, o, "observation")
+  /\ \A n \in 0..3 : \A sq \in [1..n -> {"o1", "o2", "zz"}] :
+        /\ Proofs!IsInjP(sq) = IsInj(sq)
+        /\ \A e \in {"o1", "o2", "zz", "o3"} : Proofs!IdxP(sq, e) = Idx(sq, e)
+        /\ \A ix \in [1..2 -> 1..n] : Proofs!PickP(sq, ix) = Pick(sq, ix)
 SortInverse ==
   \A ax \in Axes : \A o \in PermsOf(Ids(tbl, ax)) :
      Same(SortOrder(SortOrder(tbl, o, ax), Ids(tbl, ax), ax), tbl)
